@@ -179,7 +179,7 @@ HARNESSES = [
          cut_statics={"e2fsck/unix.c": ["PRS", "show_stats", "check_if_skip", "e2fsck_check_mmp"]},
          extra_src=["lib/ext2fs/blknum.c"], extra_harness_src=["C13/super_unit.c"],
          funcs=["vf_real_main", "try_open_fs", "check_mount", "check_backup_super_block"],
-         configs=[{"RST": 0}, {"RST": 1}, {"RST": 2}, {"RST": 3}],
+         configs=[{"RST": 0}, {"RST": 2}, {"RST": 1, "_tier": "thorough"}, {"RST": 3, "_tier": "thorough"}],   # ~30 s / 1 GB each
          unwind=4, unwindset=["try_open_fs.0:9", "reserve_stdio_fds.0:3", "fix_problem.0:13", "memcmp.0:17",
                               "check_backup_super_block.0:3",
                               "vf_real_main.0:3", "vf_real_main.1:3", "vf_real_main.2:2", "vf_real_main.3:2", "vf_real_main.4:4",
@@ -189,6 +189,18 @@ HARNESSES = [
          bound="one pass through main() per restart reason; ctx->options: every word PRS() can produce without -c/-l/-t; 2 groups; "
                "primary and backup superblock state/feature/geometry/UUID fields, mount flags, results of every stubbed pass and "
                "helper, 12 fix_problem answers: symbolic"),
+    dict(name="get_backup_sb", src="get_backup_sb.c",
+         extra_src=["e2fsck/util.c", "lib/ext2fs/res_gdt.c", "lib/ext2fs/io_manager.c", "lib/ext2fs/blknum.c"],
+         funcs=["get_backup_sb", "ext2fs_list_backups"],
+         # C13 only needs the read-only discipline (flags 0, no write, closed once): one unknown-blocksize query in quick tier;
+         # the C20 mirror should run TRUE_K = 0, 1, 2 in its quick tier (45 s / 1.9 GB each)
+         configs=[{"TRUE_K": 1}, {"TRUE_K": 0, "_tier": "thorough"}, {"TRUE_K": 2, "_tier": "thorough"}] +
+                 [{"TRUE_K": 1, "CTXBS": 2048}, {"TRUE_K": 1, "CTXBS": 1024}, {"TRUE_K": 0, "CTXBS": 4096}] +
+                 [{"TRUE_K": k, "WITH_FS": None} for k in (0, 2)] + [{"TRUE_K": 1, "DEVFAIL": None}],
+         unwind=8, unwindset=["get_backup_sb.0:20", "get_backup_sb.1:9", "main.0:8", "stub_read_blk64.0:8"],
+         backends=["default", "kissat"],
+         bound="true block size 1024/2048/4096 (one per query), default group size, 2..30 groups (symbolic), intact bit of each of the 7 "
+               "backup groups symbolic, device-size query works or (one query) fails; ctx->blocksize 0 or a -B value per query; fs absent or present"),
 ]
 HARNESSES += _e2undo("C13")   # the real main() of misc/e2undo.c (sources in harness/E2UNDO)
 
